@@ -34,14 +34,18 @@ def gen_scenario(rnd, k):
     t0 = 1_700_000_000 * 10**9
     for wf in range(1, rnd.choice([1, 2, 3]) + 1):
         nchild = rnd.choice([2, 3, 4])
-        template = [(1 + wf * 10 + c, rnd.choice(["always", "always", "optional", "alt"])) for c in range(nchild)]
+        shared = (k % 4 == 1 or k % 8 == 6)   # (async mostly) workflows using the SAME event type names (shared services), some calls repeated in a trace
+        tb = 0 if shared else wf * 10
+        template = [(1 + tb + c, rnd.choice(["always", "always", "optional", "alt"])) for c in range(nchild)]
+        if shared:      # every workflow runs the same two calls concurrently after its root
+            template = [(1, "always"), (2, "always"), (3, "always")]
         base_template = template
-        any_order = rnd.random() < 0.5      # siblings of this workflow run in a different temporal order from trace to trace
+        any_order = rnd.random() < 0.5 and not shared      # siblings of this workflow run in a different temporal order from trace to trace
         for _ in range(rnd.choice([3, 5, 8, 12])):
             if any_order:                   # (same span tree up to sibling order, different PV sequence)
                 template = list(base_template)
                 rnd.shuffle(template)
-            root = dict(id=nid, par=None, job=job, name=wf, ty=wf * 10, st=t0, en=t0 + 10**9, app=1)
+            root = dict(id=nid, par=None, job=job, name=wf, ty=(7 if shared else wf * 10), st=t0, en=t0 + 10**9, app=1)
             nid += 1
             evs.append(root)
             t = t0 + 1000
@@ -53,14 +57,17 @@ def gen_scenario(rnd, k):
                     if alt_taken or rnd.random() < 0.5:
                         continue
                     alt_taken = True
-                overlap = rnd.random() < 0.4
-                st = t - (500 if overlap else 0)
+                overlap = (ty == 2) if shared else rnd.random() < 0.4
+                st = t - (1500 if overlap else 0)      # t = previous end + 1000: starts 500 before the previous sibling ends
                 en = st + 800
                 ch = dict(id=nid, par=root["id"], job=job, name=wf, ty=ty, st=st, en=en, app=1 + wf % 2)
                 nid += 1
                 evs.append(ch)
-                if rnd.random() < 0.3:
+                if rnd.random() < 0.3 and not shared:
                     evs.append(dict(id=nid, par=ch["id"], job=job, name=wf, ty=ty + 100, st=st + 10, en=st + 20, app=1))
+                    nid += 1
+                if shared and wf == 1 and ty == 1 and rnd.random() < 0.5:      # the same call made twice at once (a repeated event type)
+                    evs.append(dict(ch, id=nid, st=st + 1, en=en + 1))
                     nid += 1
                 t = en + 1000
             job += 1
